@@ -312,6 +312,7 @@ pub fn registry() -> Vec<Entry> {
         (List, Tree), BTreeMap<String, List>, Vec<Result<Int, Nat>>, [u8; 0], [Nat; 1], [u64; 8], [String; 2],
         BTreeMap<String, [u8; 3]>, Option<(Nat, Int)>, Vec<Option<Vec<Option<Int>>>>, Generic<Generic<u8>>,
         Generic<List>, BTreeMap<Principal, Vec<MyFunc>>, Vec<ByteBuf>, BTreeMap<String, ByteBuf>,
+        MyServ2, Option<MyServ2>, Vec<MyServ2>, (MyServ2, MyServ), BTreeMap<String, MyServ2>,
     );
     under_seq!(v; NtBool, NtU8, NtI16, NtU32, NtU64, NtF64, NtNat, NtText);
     reg!(v;
